@@ -185,8 +185,15 @@ fn check_step(m: &mut Monitor, c: &Ctx, rec: &StepRec, last: &mut Vec<Option<Act
             } else if now == Some(ActionState::Completed) {
                 m.count(&format!("completed_execution_{}", kind_name(a)));
             }
-        } else if rec.result.is_some() {
+        } else if let Some(Err((e, _))) = &rec.result {
             m.count(&format!("hard_failed_execution_{}", kind_name(a)));
+            if pre != Some(ActionState::Pending) {
+                m.count(&format!("reexecution_of_{}_{}_rejected", st(pre), kind_name(a)));
+                if std::env::var("VERIF_ERRSTAT").is_ok() {
+                    let s: String = format!("{e:?}").chars().take(50).collect();
+                    m.count(&format!("errstat_reexec_{}_{}_{}", st(pre), kind_name(a), s));
+                }
+            }
         }
     }
     // (3) closes
